@@ -26,8 +26,8 @@ RULE = ('random name-resolved action bodies (quick: 1-10 top-level statements, t
         '(+where), return, control stop, function/bridge/class-operation/instance-operation invocations as statements '
         'and as values with 0-3 named parameters, parameter reads (also of user-defined types), enumerators, qualified '
         'constants, in the four homes; every fifth body (plus focused families) also holds event statements - generate to '
-        'class / assigner / creator / instance, create event instance, generate <event variable>, with 0-3 data items - '
-        'which are judged by the direct predicate only (no model counterpart); '
+        'class / assigner / creator / instance, create event instance, generate <event variable>, with 0-3 data items; a '
+        'sixth of the fresh names re-use a name whose block has ended (a new variable); '
         'plus one focused family per statement kind and home; about a quarter of the variable / handle / set names are the name of another variable of the body in a different letter case (x4 / X4: distinct variables, possibly of other kind or type, also across nested blocks; neither canon folds identifier case); surface spelling varied (keyword case, assign/then/loop/'
         'instances of, ticked or bare phrases, redundant parentheses, comments). Non-trivial: >= 2 statements and >= 12 '
         'tokens regenerated; distinct = distinct body text per home')
@@ -36,8 +36,8 @@ ASSUMPTIONS = [
     'programs are name-resolved against the synthetic base model (every class, attribute, relationship number, '
     'function, bridge, operation, parameter, enumerator, constant exists; external-entity and class key letters are '
     'disjoint; identifiers are not OAL keywords; relationship numbers are written canonically R<n>)',
-    'event statements are generated but only judged by the direct predicate (tree comparison, text2 == text3); they have '
-    'no counterpart in the Lean model and are outside the theorems; polymorphic events (E*) are not generated',
+    'event statements always state the event meaning (the regenerated text prints the meaning of the model); polymorphic '
+    'events (E*) and `generate` of anything but a plain event variable are not generated',
     'port messages (send), structured-type members, arrays of instance handles and bare (unqualified) constant names are '
     'outside the generated domain',
     'PLY lexing/LALR parsing is exercised, not modelled: the Lean parser is a recursive-descent parser for the '
@@ -185,8 +185,6 @@ def _kind_stats(prog, stats):
 
 
 def model_line(case):
-    if case.get('events'):
-        return None         # event statements are outside the Lean model (and its theorems); D still judges them
     tree1 = _rig.parse(text_of(case))
     return dumps([Sym('c05'), [_EES, _CLASSES], _enc(tree1)])
 
